@@ -60,7 +60,8 @@ def main():
     def run_demo():
         for d in demos:
             shutil.copy(d, os.path.join(wt, dest, destname or os.path.basename(d)))
-        cmd = "go test -mod=mod -vet=off -count=1 ./%s/ %s 2>&1 | tail -30" % (dest, ("-run '%s'" % run) if run else "")
+        race = "-race " if re.search(r"go test[^#\n]*\s-race\b", demo_text) else ""
+        cmd = "go test -mod=mod -vet=off -count=1 %s./%s/ %s 2>&1 | tail -30" % (race, dest, ("-run '%s'" % run) if run else "")
         rc, o = sh(cmd + "; exit ${PIPESTATUS[0]}", wt)
         ok = ("\nok " in "\n" + o or o.startswith("ok ")) and "FAIL" not in o
         return ok, o[-1500:]
@@ -77,7 +78,8 @@ def main():
         try: os.remove(os.path.join(wt, dest, destname or os.path.basename(d)))
         except OSError: pass
     # suite on the patched tree
-    rc, o = sh("go test -mod=mod -json -vet=off -count=1 -timeout 25m ./... 2>/dev/null > /tmp/seedsuite.$$.json; python3 - /tmp/seedsuite.$$.json <<'PY'\nimport json,sys\npassed=set()\nfor l in open(sys.argv[1]):\n    try: e=json.loads(l)\n    except Exception: continue\n    t=e.get('Test')\n    if t and '/' not in t and e.get('Action')=='pass': passed.add(e['Package']+'::'+t)\nbase=json.load(open('/root/.vp/BASELINE.json'))['stable_pass']\nmissing=[b for b in base if b not in passed]\nprint(json.dumps(missing))\nPY\nrm -f /tmp/seedsuite.$$.json", wt)
+    # the suite's test HTTP servers bind fixed ports, so two suites cannot run at once on this machine
+    rc, o = sh("exec 8>/tmp/.seedsuite.lock; flock 8; for i in 1 2 3 4 5 6; do ss -ltn | grep -q ':4999[0-9]' || break; sleep 20; done; go test -mod=mod -json -vet=off -count=1 -timeout 25m ./... 2>/dev/null > /tmp/seedsuite.$$.json; python3 - /tmp/seedsuite.$$.json <<'PY'\nimport json,sys\npassed=set()\nfor l in open(sys.argv[1]):\n    try: e=json.loads(l)\n    except Exception: continue\n    t=e.get('Test')\n    if t and '/' not in t and e.get('Action')=='pass': passed.add(e['Package']+'::'+t)\nbase=json.load(open('/root/.vp/BASELINE.json'))['stable_pass']\nmissing=[b for b in base if b not in passed]\nprint(json.dumps(missing))\nPY\nrm -f /tmp/seedsuite.$$.json", wt)
     try:
         missing = json.loads(o.strip().splitlines()[-1])
     except Exception:
